@@ -13,7 +13,7 @@ TRUSTED_BASE = [
     'axioms: none expected — Print Assumptions output of every property theorem is checked for "Closed under the global context"',
     'OCaml extraction with ExtrOcamlBasic only (Extract Inductive for bool, option, unit, list, prod, sumbool; no Extract Constant); N/Z/positive/nat stay Coq datatypes',
     'tools/driver.ml (s-expression parsing, number conversion, printing) and ocamlopt 4.13.1',
-    'tools/nop2coq.py translator over clang 14 JSON AST (leaf tables and decision chains regenerated from /repo on every run)',
+    'tools/nop2coq.py translator over clang 14 JSON AST: the enumerators of EncodingByte / ErrorStatus, the SipHash keys, BaseEncodingSize and Encoding<T>::Prefix / Match of the scalar types are regenerated from /repo as coq/Gen.v on every run; coq/Bridge.v proves the hand-written leaves equal to them',
     'generated C++ harness (harness/glue.h, tools/nopgen.py): Build/Dump glue, instrumented reader/writer; clang++ 14, ASan+UBSan',
     'value/type generators (they bound the correspondence check)',
     'Spec.v is my reading of docs/format.md',
@@ -195,13 +195,26 @@ def theorem_names(vfile):
     return re.findall(r'^(?:Theorem|Corollary)\s+(\w+)\s*:', txt, re.M)
 
 
+def regenerate_leaves():
+    """runs the translator: coq/Gen.v is rewritten from /repo's current headers"""
+    import nop2coq
+    os.makedirs(BUILD, exist_ok=True)
+    return nop2coq.write(os.path.join(COQ, 'Gen.v'), BUILD)
+
+
 def check_proofs(ctx, files):
-    """(re)builds the given Properties files; returns (obligations, discharged, detail)"""
+    """regenerates the translated leaf definitions, then (re)builds Bridge.v (model = translated code) and the given
+    Properties files; returns (obligations, discharged, detail)"""
     obligations, discharged, detail = 0, 0, []
+    tr_ok, tr_why = regenerate_leaves()
+    files = ['Bridge.v'] + list(files)
     targets = [f[:-2] + '.vo' for f in files]
     ok, lg = coq_make(targets)
+    if not tr_ok:
+        ok = False
+        lg = 'tools/nop2coq.py could not translate the current headers: %s\n' % tr_why + lg
     for f in files:
-        names = theorem_names(os.path.join(COQ, f))
+        names = theorem_names(os.path.join(COQ, f)) if f != 'Bridge.v' else re.findall(r'^Lemma\s+(\w+)', open(os.path.join(COQ, f)).read(), re.M)
         obligations += len(names)
         vo = os.path.join(COQ, f[:-2] + '.vo')
         built = os.path.exists(vo) and os.path.getmtime(vo) >= os.path.getmtime(os.path.join(COQ, f))
